@@ -63,7 +63,7 @@ class Fstp32(X87Instruction):
     """Store 32 bit float into memory and pop"""
 
     m = Operand("m", mem_modes)
-    syntax = Syntax(["fsts", " ", m])
+    syntax = Syntax(["fstps", " ", m])
     patterns = {"opcode": 0xD9, "reg": 3}
     tokens = [RexToken, OpcodeToken, ModRmToken]
 
